@@ -134,6 +134,76 @@ fn run(src: &str) -> Result<String, JsError> {
     }
 }
 
+// a trace that crosses a module boundary: /main.ts calls into /lib.ts; every frame must name its OWN file
+// (a frame without a file is tolerated - the unchanged tree reports constructors that way - a wrong file is not)
+fn cross_module_case(lay: Layout, through_constructor: bool) -> Result<(Vec<crate::error::StackFrame>, Vec<(Option<String>, &'static str, u32)>), String> {
+    let mut lib = Src::new();
+    lib.put(lay.pad);
+    lib.put(&format!("export function libInner(a: number) {{{}", lay.nl));
+    lib.put(lay.indent);
+    lib.put(lay.inline_pad);
+    lib.put("return ");
+    let m_inner = lib.mark("undefinedInLib");
+    lib.put(&format!(" + a;{}}}{}", lay.nl, lay.nl));
+    lib.put(&format!("export function libOuter(a: number) {{{}", lay.nl));
+    lib.put(lay.indent);
+    lib.put("return ");
+    let m_outer = lib.mark("libInner(a)");
+    lib.put(&format!(";{}}}{}", lay.nl, lay.nl));
+
+    let mut main = Src::new();
+    main.put(&format!("import {{ libOuter }} from \"./lib.ts\";{}", lay.nl));
+    main.put(lay.pad);
+    let m_call;
+    let m_top;
+    if through_constructor {
+        main.put(&format!("class Widget {{{}", lay.nl));
+        main.put(lay.indent);
+        main.put(&format!("v: number;{}", lay.nl));
+        main.put(lay.indent);
+        main.put("constructor() { this.v = ");
+        m_call = main.mark("libOuter(1)");
+        main.put(&format!("; }}{}}}{}", lay.nl, lay.nl));
+        m_top = main.mark("new Widget()");
+        main.put(&format!(";{}", lay.nl));
+    } else {
+        main.put(&format!("function mainFn() {{{}", lay.nl));
+        main.put(lay.indent);
+        main.put("return ");
+        m_call = main.mark("libOuter(1)");
+        main.put(&format!(";{}}}{}", lay.nl, lay.nl));
+        m_top = main.mark("mainFn()");
+        main.put(&format!(";{}", lay.nl));
+    }
+    let mut interp = Interpreter::new();
+    interp.prepare(&main.text, Some(ModulePath::new("/main.ts"))).map_err(|e| format!("prepare: {:?}", e))?;
+    let mut provided = false;
+    let stack = loop {
+        match interp.step() {
+            Ok(StepResult::Continue) => continue,
+            Ok(StepResult::NeedImports(reqs)) => {
+                if provided {
+                    return Err("imports requested twice".to_string());
+                }
+                provided = true;
+                for r in reqs {
+                    interp.provide_module(r.resolved_path.clone(), &lib.text).map_err(|e| format!("provide_module: {:?}", e))?;
+                }
+            }
+            Ok(other) => return Err(format!("completed without the planted error: {:?}", core::mem::discriminant(&other))),
+            Err(JsError::RuntimeError { stack, .. }) => break stack,
+            Err(e) => return Err(format!("error without a trace: {:?}", format!("{:?}", e).chars().take(160).collect::<String>())),
+        }
+    };
+    let want = vec![
+        (Some("libInner".to_string()), "/lib.ts", m_inner.0),
+        (Some("libOuter".to_string()), "/lib.ts", m_outer.0),
+        (if through_constructor { Some("Widget".to_string()) } else { Some("mainFn".to_string()) }, "/main.ts", m_call.0),
+        (None, "/main.ts", m_top.0),
+    ];
+    Ok((stack, want))
+}
+
 #[test]
 fn verif_side_c20() {
     let extra: usize = std::env::var("VERIF_ITERS").ok().and_then(|s| s.parse().ok()).unwrap_or(0);
@@ -207,6 +277,33 @@ fn verif_side_c20() {
                     }
                 }
                 other => fail("syntax_error_position_is_offending_token", format!("{} got {:?} want SyntaxError", id, format!("{:?}", other).chars().take(120).collect::<String>())),
+            }
+        }
+    }
+    for (li, lay) in LAYOUTS.iter().enumerate() {
+        for through_constructor in [false, true] {
+            cases += 1;
+            let id = format!("cross-module layout={} constructor={}", li, through_constructor);
+            match cross_module_case(*lay, through_constructor) {
+                Err(e) => fail("cross_module_trace_reported", format!("{} {}", id, e)),
+                Ok((stack, want)) => {
+                    if stack.len() != want.len() {
+                        let names: Vec<String> = stack.iter().map(|f| format!("{:?}@{:?}:{}", f.function_name, f.file, f.line)).collect();
+                        fail("trace_lists_exactly_the_active_calls", format!("{} got {} frames {:?} want {}", id, stack.len(), names, want.len()));
+                        continue;
+                    }
+                    for (j, (g, w)) in stack.iter().zip(want.iter()).enumerate() {
+                        // a frame may lack a file (constructors on the unchanged tree) but must never name the wrong one
+                        if let Some(f) = &g.file {
+                            if f != w.1 {
+                                fail("frame_names_its_own_file", format!("{} frame {} ({:?}) names {:?}, it is in {}", id, j, g.function_name, f, w.1));
+                            }
+                        }
+                        if g.line != w.2 {
+                            fail("frame_position_inside_offending_expression", format!("{} frame {} ({:?}) line {} want {}", id, j, g.function_name, g.line, w.2));
+                        }
+                    }
+                }
             }
         }
     }
